@@ -15,7 +15,7 @@ class Unsupported(Exception):
 class Module:
   """One parsed repo file with lookup helpers."""
 
-  def __init__(self, repo, relpath):
+  def __init__(self, repo, relpath, lowered=None):
     self.repo = repo
     self.relpath = relpath
     path = os.path.join(repo, relpath)
@@ -23,7 +23,11 @@ class Module:
       raise ContractMisfit('file missing: %s' % relpath)
     data = open(path, 'rb').read()
     self.sha256 = hashlib.sha256(data).hexdigest()
-    self.text = data.decode('utf-8')
+    if lowered is not None:
+      # a non-Python file (C++): `lowered` is its mechanical lowering to the Python subset
+      self.text = lowered
+    else:
+      self.text = data.decode('utf-8')
     self.tree = ast.parse(self.text, filename=path)
     self.assigns = {}   # module-level NAME = expr
     self.defs = {}      # qualname -> FunctionDef / ClassDef
@@ -166,6 +170,12 @@ def load(repo, relpath):
   if key not in _modules:
     _modules[key] = Module(repo, relpath)
   return _modules[key]
+
+
+def register_lowered(repo, relpath, text):
+  m = Module(repo, relpath, lowered=text)
+  _modules[(repo, relpath)] = m
+  return m
 
 
 def dotted_to_relpath(repo, dotted):
